@@ -1,26 +1,33 @@
 import NdnModel.Cascade
 import NdnModel.CascadeLvs
 import NdnModel.Lvs.Proto
-/-  Line protocol for the cascade / trust-schema validator model:
-    `C14 <fuel> <objs> <world> <insts> <steps>`
-      objs  ::= obj;obj;…          obj  ::= <name>:<kl|~>:<h|r|e|d|o>:<signer key id|~>:<content|~>
-                                   content ::= <e|r|d|b><key id>      (EC, RSA, Ed25519, not-a-key)
-      world ::= . | <name>=D<obj index>,<name>=N,<name>=T,…
-      insts ::= . | inst;inst;…    inst ::= <anchor obj index>/<userfns 0|1>/<roots>/<matched>/<allowed>
-                                   roots, matched ::= . | rule,rule,…     allowed ::= . | <pkt name>-<key name>,…
-      steps ::= . | <inst>:<obj index>,…
-    The ground truth "who signed" instantiates `crypto`: the library verifies o under k iff o was
-    signed with the private key of k.
-    answer: `ok <inst results> <step results>`; inst result ::= ok | err:<class>;
-      step result ::= <A|R|F|E:<class>|X>@<fetched names joined by .>   (X: instance was not built)
+/-  Line protocol for the cascade / trust-schema validator model.
 
-    The validator over a Light VerSec model (tokens of NdnModel/Lvs/Proto.lean):
+    The composed model (cascade validator over the Light VerSec checker), a whole PKI per line:
+    `C14 pki <fuel> <names> <models> <objs> <world> <insts> <steps>`
+      names  ::= <name>/<name>/…      (tokens of NdnModel/Lvs/Proto.lean: `,`-separated hex components, `.` = empty name)
+      models ::= . | <model>@<model>@…   (compiled LVS models, tokens of NdnModel/Lvs/Proto.lean)
+      objs   ::= obj;obj;…            obj  ::= <name idx>:<key locator name idx|~>:<h|r|e|d|o>:<signer key id|~>:<content|~>
+                                      content ::= <e|r|d|b><key id>      (EC, RSA, Ed25519, not-a-key)
+      world  ::= . | <name idx>=D<obj index>,<name idx>=N,<name idx>=T,…     (what the network returns for an Interest of that name)
+      insts  ::= . | inst;inst;…      inst ::= <anchor obj index>/<model idx>/<env>      env ::= . | $eq,$eq_type,…
+      steps  ::= . | <inst>:<obj index>,…
+    The ground truth "who signed" instantiates `crypto`: the library verifies o under k iff o was
+    signed with the private key of k.  NOTHING the real checker answered is an input: every link's `allowed` is
+    `Ndn.Lvs.check` on the model, the construction is `constructLvs` (`validate_user_fns`, `root_of_trust`, `match`).
+    answer: `ok <inst results> <step results> <inst infos>`; inst result ::= ok | err:<class>;
+      step result ::= <A|R|F|E:<class>|X>@<Interests joined by .>   (X: instance was not built)
+      Interest ::= <name idx>^<CanBePrefix 0|1>^<MustBeFresh 0|1>^<lifetime ms>
+      inst info ::= <validate_user_fns 0|1>~<root_of_trust rule names ,-separated|.>~<anchor's matched rule names|.|E:<class>>~<links>
+      links ::= per object, `+`-separated:  - (no key locator name) | 1 | 0 | E:<class>   = Checker.check(name, key locator)
+
+    The validator over a Light VerSec model, anchor-signed packets only (tokens of NdnModel/Lvs/Proto.lean):
     `C14 lvs <model> <env> <name>/<name>/… <links>`       links ::= . | <a>:<p>:<0|1>,…
     answer: `ok <0|1 validate_user_fns> <root_of_trust rule names , -separated | .> <r>/<r>/… <verdicts>`
       with, per candidate anchor name,  r ::= <matched rule names , -separated | . | E:<class>>~<ok | err:<class>>
       where the second part is `lvs_validator`'s outcome for a properly self-signed anchor of that name
       (`constructLvs` with a crypto that verifies the anchor), and, per link `<a>:<p>:<b>`, the verdict
-      (`A`/`R`/`F`, `X` if the validator could not be built) of the validator anchored at name number `a`
+      (`A`/`R`/`E:<class>`/`F`, `X` if the validator could not be built) of the validator anchored at name number `a`
       on a packet named name number `p` whose key locator is the anchor's name and whose signature does
       (1) / does not (0) verify under the anchor's key. -/
 namespace Ndn.Drv.C14
@@ -58,41 +65,47 @@ def parseObj (s : String) : Option (Obj Name) :=
     pure ⟨n, kl, t, sg, c⟩
   | _ => none
 
-def parseWorldEntry (objs : List (Obj Name)) (s : String) : Option (Name × Outcome Name) :=
+def parseWorldEntry (objs : List (Obj LName)) (names : List LName) (s : String) : Option (LName × Outcome LName) :=
   match s.splitOn "=" with
   | [n, o] => do
     let n ← n.toNat?
-    if o == "N" then pure (n, .nack)
-    else if o == "T" then pure (n, .timeout)
+    let nm ← names[n]?
+    if o == "N" then pure (nm, .nack)
+    else if o == "T" then pure (nm, .timeout)
     else if o.startsWith "D" then do
       let i ← (o.drop 1).toString.toNat?
       let c ← objs[i]?
-      pure (n, .data c)
+      pure (nm, .data c)
     else none
   | _ => none
 
-def lookupWorld : List (Name × Outcome Name) → Name → Option (Outcome Name)
+def lookupWorld : List (LName × Outcome LName) → LName → Option (Outcome LName)
   | [], _ => none
   | (m, o) :: r, n => if m = n then some o else lookupWorld r n
 
-def parsePair (s : String) : Option (Nat × Nat) :=
-  match s.splitOn "-" with
-  | [a, b] => do pure (← a.toNat?, ← b.toNat?)
-  | _ => none
+/-- an object over name indices → over real names -/
+def realObj (names : List LName) (o : Obj Name) : Option (Obj LName) := do
+  let n ← names[o.name]?
+  let kl ← match o.keyLoc with
+    | none => some none
+    | some k => (names[k]?).map some
+  pure ⟨n, kl, o.sigType, o.sig, o.content⟩
 
 structure InstSpec where
-  setup   : Setup Name
-  allowed : List (Nat × Nat)
+  anchor : Obj LName
+  key    : Key
+  model  : Lvs.Model
+  env    : Lvs.FnEnv
 
-def parseInst (objs : List (Obj Name)) (s : String) : Option InstSpec :=
+def parseInst (objs : List (Obj LName)) (models : List Lvs.Model) (s : String) : Option InstSpec :=
   match s.splitOn "/" with
-  | [a, u, roots, matched, allowed] => do
+  | [a, mi, es] => do
     let a ← a.toNat?
     let anchor ← objs[a]?
     let key ← anchor.content
-    let u ← if u == "1" then some true else if u == "0" then some false else none
-    let al ← (splitList allowed ",").mapM parsePair
-    pure ⟨⟨u, splitList roots ",", splitList matched ",", anchor, key⟩, al⟩
+    let m ← models[← mi.toNat?]?
+    let env ← Lvs.Proto.parseEnv es
+    pure ⟨anchor, key, m, env⟩
   | _ => none
 
 def parseStep (s : String) : Option (Nat × Nat) :=
@@ -108,26 +121,28 @@ def showVerdict : Option Verdict → String
   | some .reject => "R"
   | some (.raise e) => "E:" ++ e.name
 
-def showLog (l : List Name) : String := ".".intercalate (l.map toString)
+def showInterest (names : List LName) (i : Interest LName) : String :=
+  toString (names.idxOf i.name) ++ "^" ++ (if i.canBePrefix then "1" else "0") ++ "^" ++
+    (if i.mustBeFresh then "1" else "0") ++ "^" ++ toString i.lifetime
 
-/-- instances that could be built, with their environment -/
-def buildInst (world : Name → Option (Outcome Name)) (i : InstSpec) : Except PyErr (Env Name) :=
-  match construct groundCrypto i.setup with
-  | .ok (n, k) => .ok ⟨fun a b => i.allowed.contains (a, b), groundCrypto, world, n, k⟩
+def showLog (names : List LName) (l : List (Interest LName)) : String := ".".intercalate (l.map (showInterest names))
+
+/-- instances that could be built (`constructLvs`), as environments of the composed model -/
+def buildInst (world : Interest LName → Option (Outcome LName)) (i : InstSpec) : Except PyErr (Env LName) :=
+  match constructLvs groundCrypto i.model i.env i.anchor i.key with
+  | .ok (n, k) => .ok (Inst.env ⟨i.model, i.env, groundCrypto, world, n, k⟩)
   | .error e => .error e
 
-def dummyEnv : Env Name := ⟨fun _ _ => false, groundCrypto, fun _ => none, 0, ⟨.bad, 0⟩⟩
-
-def runSteps (insts : List (Except PyErr (Env Name))) (objs : List (Obj Name)) (fuel : Nat) :
-    (Nat → Cache Name) → List (Nat × Nat) → Option (List String)
+def runSteps (names : List LName) (insts : List (Except PyErr (Env LName))) (objs : List (Obj LName)) (fuel : Nat) :
+    (Nat → Cache LName) → List (Nat × Nat) → Option (List String)
   | _, [] => some []
   | cs, (i, oi) :: r =>
     match insts[i]?, objs[oi]? with
     | some (.ok E), some o =>
       let x := validate E fuel (cs i) o
-      (runSteps insts objs fuel (setCache cs i x.cache) r).map
-        ((showVerdict x.verdict ++ "@" ++ showLog x.log) :: ·)
-    | some (.error _), some _ => (runSteps insts objs fuel cs r).map ("X@" :: ·)
+      (runSteps names insts objs fuel (setCache cs i x.cache) r).map
+        ((showVerdict x.verdict ++ "@" ++ showLog names x.log) :: ·)
+    | some (.error _), some _ => (runSteps names insts objs fuel cs r).map ("X@" :: ·)
     | _, _ => none
 
 def joinOr (l : List String) : String := if l.isEmpty then "." else ",".intercalate l
@@ -179,25 +194,52 @@ def handleLvs (args : List String) : String :=
     | _, _, _, _ => "bad-op"
   | _ => "bad-op"
 
+def showLink (i : InstSpec) (o : Obj LName) : String :=
+  match o.keyLoc with
+  | none => "-"
+  | some kn =>
+    match lvsAllowed i.model i.env o.name kn with
+    | .ok true => "1"
+    | .ok false => "0"
+    | .error e => "E:" ++ e.name
+
+def instInfo (objs : List (Obj LName)) (i : InstSpec) : String :=
+  (if userFnsOk i.model i.env then "1" else "0") ++ "~" ++ joinOr (rootOfTrust i.model) ++ "~" ++
+  (match anchorMatches i.model i.env i.anchor.name with
+    | .ok l => joinOr l
+    | .error e => "E:" ++ (pyOfLvs e).name) ++ "~" ++
+  (if objs.isEmpty then "." else "+".intercalate (objs.map (showLink i)))
+
+def handlePki (args : List String) : String :=
+  match args with
+  | ["pki", fuel, nss, mss, objs, world, insts, steps] =>
+    match fuel.toNat?, (nss.splitOn "/").mapM fromHexList, (splitList mss "@").mapM Lvs.Proto.parseModel,
+          (splitList objs ";").mapM parseObj with
+    | some fuel, some names, some models, some iobjs =>
+      match iobjs.mapM (realObj names) with
+      | some objs =>
+        match (splitList world ",").mapM (parseWorldEntry objs names), (splitList insts ";").mapM (parseInst objs models),
+              (splitList steps ",").mapM parseStep with
+        | some w, some is, some ss =>
+          let wf : Interest LName → Option (Outcome LName) := fun i => lookupWorld w i.name
+          let built := is.map (buildInst wf)
+          let ir := built.map fun b => match b with
+            | .ok _ => "ok"
+            | .error e => "err:" ++ e.name
+          match runSteps names built objs fuel (fun _ => []) ss with
+          | some sr => "ok " ++ (if ir.isEmpty then "." else ",".intercalate ir) ++ " " ++
+                       (if sr.isEmpty then "." else ",".intercalate sr) ++ " " ++
+                       (if is.isEmpty then "." else ";".intercalate (is.map (instInfo objs)))
+          | none => "bad-op"
+        | _, _, _ => "bad-op"
+      | none => "bad-op"
+    | _, _, _, _ => "bad-op"
+  | _ => "bad-op"
+
 def handle (args : List String) : String :=
   match args with
   | "lvs" :: _ => handleLvs args
-  | [fuel, objs, world, insts, steps] =>
-    match fuel.toNat?, (splitList objs ";").mapM parseObj with
-    | some fuel, some objs =>
-      match (splitList world ",").mapM (parseWorldEntry objs), (splitList insts ";").mapM (parseInst objs),
-            (splitList steps ",").mapM parseStep with
-      | some w, some is, some ss =>
-        let built := is.map (buildInst (lookupWorld w))
-        let ir := built.map fun b => match b with
-          | .ok _ => "ok"
-          | .error e => "err:" ++ e.name
-        match runSteps built objs fuel (fun _ => []) ss with
-        | some sr => "ok " ++ (if ir.isEmpty then "." else ",".intercalate ir) ++ " " ++
-                     (if sr.isEmpty then "." else ",".intercalate sr)
-        | none => "bad-op"
-      | _, _, _ => "bad-op"
-    | _, _ => "bad-op"
+  | "pki" :: _ => handlePki args
   | _ => "bad-op"
 
 end Ndn.Drv.C14
